@@ -59,6 +59,14 @@ Theorem runtime_submodule_uses_locally_covered :
 Proof. exact runtime_submodule_uses_locally_covered_l. Qed.
 Print Assumptions runtime_submodule_uses_locally_covered.
 
+(* No code that can run while an ioflo module is imported (module / class bodies and, name based and
+   transitively, every function or constructor called from them; generated table [stdio_derefs])
+   dereferences sys.stdout / sys.stderr / sys.stdin unguarded (outside try / except handler / an `if` on that
+   stream): importing does not depend on the host process having standard streams. *)
+Theorem import_time_stdio_guarded : forallb (fun d => snd d) stdio_derefs = true.
+Proof. exact import_time_stdio_guarded_l. Qed.
+Print Assumptions import_time_stdio_guarded.
+
 (* the generic monotonicity (simulation) lemma the two theorems above rest on, for EVERY graph:
    if S is closed under imports and the state u is the state t plus all of S finished, a
    successful import from t also succeeds from u and keeps the relation *)
